@@ -57,19 +57,35 @@ def _d19b(case, observed, finding):
                 and observed.get('op', [None])[0] in READ_OPS)
 
 
-def _d19c(case, observed, finding):
-    """D19c: an indexed read raised TypeError, and the model derives exactly that from its table and disk: the
-    object holds a handle of a file it reads whose path names nothing any more (an earlier step removed it)"""
+def _d19d(case, observed, finding):
+    """D19d: iter_pieces() hit by a SEEK fault let the raw OSError escape, and the model derives exactly that (the
+    seek of _iter_from_file_handle stands before its try block)"""
     return bool(isinstance(observed, dict) and case.get('dyn')
-                and observed.get('observed') == ['err', 'TypeError']
-                and observed.get('model_answer') == ['err', 'TypeError']
+                and observed.get('observed') == ['err', 'OSError']
+                and observed.get('model_answer') == ['err', 'OSError']
+                and observed.get('fault_fired')
+                and observed.get('op', [None])[0] in ('iterFull', 'iterAbandon')
+                and op_dec(observed['op']).get('fault', [None, None])[1] == 'seek')
+
+
+def _d19e(case, observed, finding):
+    """D19e: an indexed read tripped get_piece()'s length assertion, and the model derives exactly that from its table
+    and disk: the object holds a STALE handle (the row is not clean) — an earlier step replaced or removed the file —
+    on an inode of another size than the path's file / the recorded size"""
+    return bool(isinstance(observed, dict) and case.get('dyn')
+                and observed.get('observed') == ['err', 'AssertionError']
+                and observed.get('model_answer') == ['err', 'AssertionError']
+                and observed.get('stale_handle_read')
                 and observed.get('op', [None])[0] in ('getPiece', 'getPieceHash', 'verifyPiece')
                 and isinstance(observed.get('step'), int)
-                and any(o[0] == 'disk' and o[1] == 'unlink' for o in case['ops'][:observed['step']]))
+                and any(o[0] == 'disk' and o[1] in ('replace', 'unlink', 'mkdir') for o in case['ops'][:observed['step']]))
 
 
 MATCHERS = {'stale_read_ahead_after_inplace_rewrite': _d19b,
-            'type_error_for_vanished_file_with_cached_handle': _d19c}
+            'oserror_from_seek_fault_in_iter_pieces': _d19d,
+            'assertion_error_from_stale_handle_of_other_size': _d19e}
+
+DOCUMENTED = ('ValueError', 'ReadError', 'VerifyFileSizeError')
 
 RULE = ('case = (piece length, file sizes >= 1, handle cap, wrong stored hashes, history of '
         'operations on ONE TorrentFileStream object); operations: iterFull, iterAbandon k '
@@ -909,9 +925,9 @@ def with_dec(op, cp=None, fault=None):
 
 
 def fault_kinds(op):
-    """where a transient OSError is caught by the code: seek and read inside get_piece's try block, read inside the
-    reader of iter_pieces (its seek is outside the try block and practically never fails on a regular file)"""
-    return ('read', 'seek') if op[0] in ('getPiece', 'getPieceHash', 'verifyPiece') else ('read',)
+    """where a transient OSError may strike: the first seek or the first read of a file inside any reading operation
+    (get_piece catches both; the reader of iter_pieces catches the read, its seek stands before the try block: D19d)"""
+    return ('read', 'seek')
 
 
 def random_root_states(rng, sizes, roots):
@@ -1321,6 +1337,7 @@ def _drv_ops_dyn(c, syms):
                 d['cp'] = dec['cp']
             if dec.get('fault'):
                 d['fault'] = dec['fault'][0]
+                d['fseek'] = dec['fault'][1] == 'seek'
             out.append(d)
     return out
 
@@ -1432,28 +1449,29 @@ def evaluate_dyn(ctx, drv, cases):
                 sp = _canon_model_dyn(row['m'] if row['s'] is None else row['s'], contents, row.get('scmp'), nbase)
                 faulted = bool(op[0] in READ_OPS and op_dec(op).get('fault'))
                 clean = row['clean'] and not faulted
-                if faulted:
-                    # (whether the operation gets to the faulty read at all is part of the model's answer)
-                    if o.get('fired') and not _same(i, ('err', 'ReadError')):
-                        ctx.violation(f'step {n} {op}: a transient OSError from seek()/read() must surface as ReadError',
-                                      case, {**where, 'expected': ['err', 'ReadError']}, {**where, 'observed': _short(i)},
-                                      finding_matchers=MATCHERS)
-                        break
                 if hyp and row['clean'] and not faulted and row['s'] is not None:
                     ctx.machinery_error(f'model answer differs from the specification at step {n} although the object '
                                         'holds no stale handle of a file it reads (C19_disk_independent is proved)', case)
                     break
                 fr = _canon_impl_dyn(o['fresh']) if 'fresh' in o else None
-                # documented outcomes only: TypeError is a crash, whatever the handles are open on
-                if i == ('err', 'TypeError'):
-                    fid = ctx.violation(f'step {n} {op}: an undocumented exception (TypeError) escapes',
+                # documented outcomes only (ValueError, ReadError, VerifyFileSizeError): anything else is a crash, whatever the
+                # handles are open on and whatever fault struck
+                if i[0] == 'err' and i[1] not in DOCUMENTED:
+                    fid = ctx.violation(f'step {n} {op}: an undocumented exception ({i[1]}) escapes',
                                         case, {**where, 'expected': 'a piece / digest / bool / None / ReadError / '
                                                'VerifyFileSizeError / ValueError',
                                                'fresh_object': None if fr is None else _short(fr)},
-                                        {**where, 'observed': _short(i), 'model_answer': _short(m)},
+                                        {**where, 'observed': _short(i), 'model_answer': _short(m),
+                                         'fault_fired': bool(o.get('fired')), 'stale_handle_read': not row['clean']},
                                         finding_matchers=MATCHERS)
                     if fid is None:
                         break
+                elif faulted and o.get('fired') and not _same(i, ('err', 'ReadError')):
+                    # (whether the operation gets to the faulty seek/read at all is part of the model's answer)
+                    ctx.violation(f'step {n} {op}: a transient OSError from seek()/read() must surface as ReadError',
+                                  case, {**where, 'expected': ['err', 'ReadError']}, {**where, 'observed': _short(i)},
+                                  finding_matchers=MATCHERS)
+                    break
                 # (b)/(c) the used object: the specification when it holds no stale handle it reads, else the model
                 want = sp if clean else m
                 dev = None
@@ -1472,7 +1490,7 @@ def evaluate_dyn(ctx, drv, cases):
                 if dev and not row['clean']:
                     # The object holds a stale handle of a path it reads: the property makes no demand of its own there (old
                     # inode or new path are both operating-system semantics), the reference is the model.  A different answer
-                    # means the model describes other code — a broken correspondence, not a failing input of C19 (TypeError and
+                    # means the model describes other code — a broken correspondence, not a failing input of C19 (undocumented exceptions and
                     # wrongly surfaced faults are judged above).  `explained` says whether the answer is the fresh object's or
                     # the one of reading the old inodes throughout (apart from D19b's stale read-ahead).
                     alts = [_canon_model_dyn(al['o'], contents, al.get('cmp'), nbase) for al in row.get('alts', [])]
